@@ -56,6 +56,9 @@ pub struct LinkRecord {
     pub name: String,
     pub gen: u64,
     pub sent: Vec<u64>,
+    /// every message handed to send(), including the one whose send() failed: a failed send may
+    /// still have reached the peer
+    pub attempted: Vec<u64>,
     pub received: Vec<u64>,
     pub result: String,
     pub error_seen: Option<String>,
@@ -124,6 +127,7 @@ async fn listener_link(ep: LinkEndpoint, gens: Rc<RefCell<BTreeMap<String, u64>>
             let closes_first = name.contains("p#"); // marker in the name: peer closes first
             for k in 0..n {
                 let u = uid(idx, gen, k as u64 + 1);
+                rec.attempted.push(u);
                 match s.send(message(u, false)).await {
                     Ok(_) => rec.sent.push(u),
                     Err(e) => {
@@ -220,6 +224,7 @@ async fn client_link(
     if let Some(mut s) = sender {
         for k in 0..life.n {
             let u = uid(life.idx, life.gen, k as u64 + 1);
+            rec.attempted.push(u);
             match sim::op(&format!("send {} on {}", k, life.name), s.send(message(u, life.big))).await {
                 Some(Ok(_)) => rec.sent.push(u),
                 Some(Err(e)) => {
@@ -646,9 +651,9 @@ pub async fn run(judge: Judge, models: Models) {
         let want: Vec<u64> = (0..*n).map(|k| uid(parse_name(name).0, *gen, k as u64 + 1)).collect();
         if judge.routing {
             let (sent, got) = if *client_sends {
-                (c.map(|r| r.sent.clone()), l.map(|r| r.received.clone()))
+                (c.map(|r| r.attempted.clone()), l.map(|r| r.received.clone()))
             } else {
-                (l.map(|r| r.sent.clone()), c.map(|r| r.received.clone()))
+                (l.map(|r| r.attempted.clone()), c.map(|r| r.received.clone()))
             };
             if let (Some(sent), Some(got)) = (&sent, &got) {
                 if let Some(bad) = got.iter().find(|u| !want.contains(u)) {
@@ -658,7 +663,8 @@ pub async fn run(judge: Judge, models: Models) {
                     );
                     return;
                 }
-                // what arrived is a prefix of what was sent, in order (completeness is C01's business)
+                // what arrived is a prefix of what was handed to send(), in order (completeness is
+                // C01's business; a send that failed may still have arrived)
                 if got.len() > sent.len() || got[..] != sent[..got.len()] {
                     sim::violation(
                         "link-delivery-mismatch",
@@ -672,7 +678,8 @@ pub async fn run(judge: Judge, models: Models) {
             // everything the application had handed over before it tore the link (and then the
             // session) down must have been flushed to the peer
             if let (Some(c), Some(l)) = (c, l) {
-                if l.received != c.sent {
+                let flushed = l.received.len() >= c.sent.len() && l.received[..c.sent.len()] == c.sent[..] && l.received.len() <= c.attempted.len() && l.received[..] == c.attempted[..l.received.len()];
+                if !flushed {
                     let sig = if small_peer_window { "session-end-discards-transfers-held-for-the-window" } else { "" };
                     sim::violation_sig(
                         "queued-frames-not-flushed",
